@@ -26,4 +26,33 @@ CHECKS["C38"] = dict(
     design_ref="DESIGN.md §4 C38",
 )
 
+CHECKS["C06"] = dict(
+    category="exploration",
+    technique="exhaustive enumeration (itertools, 16 shards) of macro signatures x body uses x call shapes against an executable binding specification",
+    text="Every signature (<=3 params quick / <=4 + one step thorough, trailing defaults over constant / earlier parameter / outer variable, 8 uses of varargs/kwargs/caller) x 7 call shapes (plain, *list, **dict, both, duplicate through **dict, call block, Python call through the template module) x 0-5 positional and <=3-4 keyword arguments is rendered and compared by text or TypeError with a binding specification written from the docs: 216k cases quick, 3.4M thorough (sync and async). Exhaustive within the bounds, so any off-by-one in Macro.__call__ is found deterministically (11/11 mutants killed).",
+    note="Default Undefined; TypeError matched by class; a call block on a macro with kwargs but no caller is not judged (undocumented); source-level duplicate keywords belong to C01.",
+    design_ref="DESIGN.md §4 C06",
+)
+CHECKS["C07"] = dict(
+    category="exploration",
+    technique="exhaustive enumeration of item sequences x attribute-query selections x iteration masks x 11 iterable forms, plus Hypothesis-generated filtered / else / break-continue / recursive loops, against a direct specification of the loop variable",
+    text="Part 1 enumerates all sequences of length 0-4 (0-6 thorough) over 4 values x ordered selections of loop attributes x masks saying on which iterations they are queried, rendered for list/tuple/iterator/generator/sized non-sequence and (async) async-generator forms in sync and async environments; values of all 12 documented attributes and the visited items are computed from the materialised list. Part 2 draws loops with filters, else, break/continue and recursion (depth<=4) and compares with a small reference interpreter. 326k cases quick / 12.9M thorough; 19/19 mutants killed; found F31.",
+    note="Iterables are single-use, do not raise, hold small ints; templates assumed stateless across renders (compiled templates are memoised per process).",
+    design_ref="DESIGN.md §4 C07",
+)
+CHECKS["C27"] = dict(
+    category="fault_enumeration",
+    technique="fault enumeration (every crash point / byte offset of the cache write path, every truncation offset, foreign/stale entries, faulty memcached client) + exhaustive load/modify/clear histories, differential against a cache-less environment",
+    text="tempfile/os/open as seen from jinja2.bccache are replaced in-process; every crash point of FileSystemBytecodeCache.dump_bytecode (before/after temp creation, after every byte count, after close, before/after rename; kill and OSError variants; with and without an older entry) leaves a directory snapshot that fresh environments load from; every truncation offset, zero-length, directory-in-place, stale, foreign-name, foreign-magic and trailing-bytes entry; all histories up to length 4 (5-6 thorough) over two environments sharing the directory for 4 equal and 10 differently configured pairs; MemcachedBytecodeCache over a fake client with per-call fault schedules. Oracle: text or exception class + template traceback frames equal a cache-less environment of the loader's configuration on the current source, and any file under an entry's final name is a complete entry. 50k cases quick, 670k thorough; 11/11 mutants killed.",
+    note="Both sides run the same compiler; rename assumed atomic (Python-level fault model); F16 (cache key ignores compile-relevant options) is a listed known finding: loads served a differently configured writer's entry are judged only against either configuration's outcome; no corruption inside marshal data (documented unsafe).",
+    design_ref="DESIGN.md §4 C27",
+)
+CHECKS["C28"] = dict(
+    category="exploration",
+    technique="exhaustive enumeration of path-fragment names + Hypothesis names/loader compositions, judged by a sys.addaudithook recorder and a manifest-based reference resolver",
+    text="A sandbox tree with sentinel files next to, above and inside the package but outside the search roots; every name of up to 4 (5 thorough) segments over a 15-symbol alphabet of '..', '.', '', separators, absolute prefixes, drive letters, NUL, Unicode, joined by '/' and '\\', against 10 FileSystemLoader/PackageLoader variants: every open/listdir/scandir audit event in the call window must resolve inside a search root and the returned source / rendered text / filename must equal the reference resolver's answer (or TemplateNotFound). ChoiceLoader/PrefixLoader trees up to depth 3 are compared with a first-match, prefix-stripping resolver through get_source and load. 640k cases quick, 8.7M thorough; 12/12 non-equivalent mutants killed.",
+    note="POSIX semantics only; no symlinks or zip packages; reads are visible as audit events; PrefixLoader prefixes contain no delimiter.",
+    design_ref="DESIGN.md §4 C28",
+)
+
 NOT_YET = "check not built yet in this session (see DESIGN.md §8 for the order of work)"
